@@ -193,8 +193,14 @@ def receive_body(stream, c1, c2, c3):
     if not ref_msgs:
         return  # precondition: one whole frame is available
     rt.nontrivial()
-    got = message.receive(_Sock(stream, [c1, c2, c3]))
+    sock = _Sock(stream, [c1, c2, c3])
+    got = message.receive(sock)
     rt.require(got == ref_msgs[0], 'receive:message', 'short reads change the received message')
+    # nothing beyond the frame may be consumed: the next receive starts at the next frame
+    rt.require(len(sock.s) == len(stream) - 4 - len(ref_msgs[0]), 'receive:over-read',
+               f'receive consumed {len(stream) - len(sock.s)} bytes for a frame of {4 + len(ref_msgs[0])}')
+    if len(ref_msgs) > 1:
+        rt.require(message.receive(sock) == ref_msgs[1], 'receive:next-message', 'the message after a fragmented one is not received intact')
 
 
 # ------------------------------------------------------------- handshake -----
@@ -399,8 +405,8 @@ INFO = {
         'pl.message.receive',
     ],
     'bounds': {
-        'quick': 'all byte values; |a|+|b| <= 9 (every split position); receive: stream <= 8 bytes, 3 short reads; handshake: streams assembled from fields (first words in {4,5,0}, lengths 0..2, both signature verdicts and the echo, 0-2 trailing application frames), every split into two chunks; every split into three chunks for the valid streams; per-phase lemma: from each of the 5 handshake phases (id/reply lengths 1..3), ALL byte values, |a|+|b| <= 10, every split',
-        'thorough': 'per-phase lemma |a|+|b| <= 12; all byte values; |a|+|b| <= 12 (every split position, two complete frames fit); receive: stream <= 10 bytes; handshake: same fields, every split into two and three chunks',
+        'quick': 'all byte values; |a|+|b| <= 9 (every split position); receive: stream <= 10 bytes, 3 short reads, nothing beyond the frame consumed and the next frame received intact; handshake: streams assembled from fields (first words in {4,5,0}, lengths 0..2, both signature verdicts and the echo, 0-2 trailing application frames), every split into two chunks; every split into three chunks for the valid streams; per-phase lemma: from each of the 5 handshake phases (id/reply lengths 1..3), ALL byte values, |a|+|b| <= 10, every split',
+        'thorough': 'per-phase lemma |a|+|b| <= 12; all byte values; |a|+|b| <= 12 (every split position, two complete frames fit); receive: stream <= 12 bytes; handshake: same fields, every split into two and three chunks',
     },
     'assumptions': [
         'struct.unpack(">I"/">L"/">II") replaced by a pure-Python big-endian decode (differential-tested against struct on every run)',
@@ -469,7 +475,7 @@ def obligations(tier):
                                    timeout=600 if tier == 'quick' else 3000))
     out.append(ob.make('phase', 'phase', 'vp.harness.c14:phase_body', 'a: bytes, b: bytes, va: bool, vb: bool, echo: bool',
                        ['len(a) == 2 and len(b) <= 5'], "{'phase': 5, 'n': 1, 'a': a, 'b': b, 'va': va, 'vb': vb, 'echo': echo}", timeout=300, twin=True))
-    n = 8 if tier == 'quick' else 10
+    n = 10 if tier == 'quick' else 12
     out.append(
         ob.make(
             'receive',
@@ -478,7 +484,7 @@ def obligations(tier):
             'stream: bytes, c1: int, c2: int, c3: int',
             [f'len(stream) <= {n}', 'c1 >= 1 and c2 >= 1 and c3 >= 1'],
             "{'stream': stream, 'c1': c1, 'c2': c2, 'c3': c3}",
-            timeout=240 if tier == 'quick' else 1200,
+            timeout=600 if tier == 'quick' else 2400,
         )
     )
     out.append(
